@@ -70,6 +70,13 @@ def family(n_iter, n_entry, n_entries, n_par, n_mixed, seed=7):
               ["and", ["vref", "B"], ["not", ["vopt", "Z"]]]]:
         cases.append({"kind": "iter", "id": True, "idpos": 0, "views": [], "filter": f})
         cases.append({"kind": "iter", "id": False, "idpos": 0, "views": rand_views(2), "filter": f})
+    # a required view followed (in registry order) by an optional one, sequential and parallel:
+    # the column walk must stay aligned with the identifier bits
+    for a, b in [("B", "W"), ("B", "H"), ("B", "T8"), ("S", "W"), ("S", "H"), ("S", "T8"), ("W", "H"), ("W", "T8")]:
+        for k1 in ("mut", "ref"):
+            for k2 in ("optref", "optmut"):
+                for kind in ("iter", "par"):
+                    cases.append({"kind": kind, "id": True, "idpos": 0, "views": [(a, k1), (b, k2)], "filter": ["none"]})
     while len([c for c in cases if c["kind"] == "iter"]) < n_iter:
         cases.append({"kind": "iter", "id": rnd.random() < 0.6, "idpos": rnd.randint(0, 3), "views": rand_views(5), "filter": rand_filter(rnd)})
     for _ in range(n_entry):
